@@ -93,8 +93,8 @@ for _k, _v in {
  "C02": "Round 12: the netconf-reader foundation now carries 'the filing of a reply does not depend on another id in the message'.",
  "C03": "Round 12: C03/framed-only-through-sendrpc (who-may-write: the framed bytes of a serialized request reach the channel through sendRPC only).",
  "C04": "Round 12: C04/onx-send-command (a platform hook's send-command step is (*network.Driver).SendCommand).",
- "C05": "Round 12: C05/closed-result-zero is path-based (no send-less exit of a result-closing worker is reachable without a context-over edge; one-level helper verdicts followed); C05/found-send-input, C05/found-get-prompt.",
- "C06": "Round 12: C06/close-callers (who-may-call: Channel.Close is called by Open and Close methods only).",
+ "C05": "Round 13: C05/deadline-every-pass (every cycle of a read-until loop from one Channel.Read to the next passes the context check), C05/id-allocation (restated). Round 12: C05/closed-result-zero is path-based (no send-less exit of a result-closing worker is reachable without a context-over edge; one-level helper verdicts followed); C05/found-send-input, C05/found-get-prompt.",
+ "C06": "Round 13: C06/found-open-cleanup. Round 12: C06/close-callers (who-may-call: Channel.Close is called by Open and Close methods only).",
  "C07": "Round 12: C07/reader-released (restated C06/reader: Channel.Read looks at the error channel before it dequeues), C07/close-callers.",
  "C08": "Round 12: C08/own-id also rejects a filing that is conditional on a subscription id; C08/store-unconditional (storeMessage / storeSubscriptionMessage file on every path); C08/closed-result-zero; C08/submatch-guarded (found G23).",
  "C09": "Round 12: C09/hello-delimiter-installed (netconf.NewDriver stores the end-of-message delimiter behind the option loop on every success path); C09/submatch-guarded.",
@@ -103,7 +103,7 @@ for _k, _v in {
  "C12": "Round 12: C12/events-not-mutated (no store into a SendInteractiveEvent the function did not build). C12/onx-send-command (a hook's send-command passes no per-operation option of its own: no eager send that leaves a prompt unread).",
  "C13": "Round 12: C13/post-process (restated), C13/found-ansi.",
  "C14": "Round 12: C14/key-errors-surface (the failing edge of reading / parsing the configured private key only logs and returns the error, in both ssh transports).",
- "C16": "Round 12: C16/found-netconf-reader.",
+ "C16": "Round 12: C16/found-netconf-reader, C16/read-error-delivered (restated C06/propagate for the read loop).",
  "C17": "Round 12: C17/merge also rejects a merge that is conditional on another section of the variant; C17/onx-send-command, C17/float-scaled-first, C17/globals-immutable.",
  "C18": "Round 12: C18/found-transport-pipe.",
  "C19": "Round 12: C19/no-cutset-for-prefix (no Trim/TrimLeft/TrimRight with a multi-character non-blank constant set), C19/float-scaled-first (library-wide: no float converted to an integer type and then multiplied by a constant), C19/verdict-in-loop-only (the error an option returned is never tested again behind the apply loop).",
